@@ -316,7 +316,7 @@ func realHandlerGuard(c *Ctx, fnName, callee string) {
 		c.Undecided(rule, construct, fmt.Sprintf("%d scheduleHandler calls", len(sites)))
 		return
 	}
-	args := sites[0].(*ssa.Call).Call.Args
+	args := BaselineArgs(&sites[0].(*ssa.Call).Call)
 	h := args[len(args)-1]
 	ph, ok := h.(*ssa.Phi)
 	if !ok {
